@@ -144,7 +144,7 @@ addresses whose timer-wheel entry count exceeds one (a stale timer of an earlier
 address is still in the wheel), used only to name the class of a schedule violation. -/
 def c32 (c : Ctx) (k : Kind) (cfg : Cfg) (view : Option (List (Nat × Int))) (tainted : List Nat) : String :=
   let ps := c.implP.filterMap pendingOf
-  if ps.any (fun p => p.2.2 > Nebula.Gen.nebula_maxCachedPackets) then "bad c32-queue-over-cap" else
+  if ps.any (fun p => p.2.2 > Nebula.Gen.hsm_maxCachedPackets) then "bad c32-queue-over-cap" else
   let sched :=
     match view with
     | none => "ok"
